@@ -10,7 +10,7 @@
 //   gap L1 L2 ...            MinGap(M, N, L) + export of N
 //   ray ox oy oz ex ey ez    RayCast
 //   wind x y z               WindingNumber
-//   slice z                  Slice(z)
+//   slice z | slicev k       Slice(z) / Slice at the height of exported vertex k
 //   proj                     Project()
 //   decomp                   Decompose()
 //   tritri 18 doubles        DistanceTriangleTriangleSquared directly
@@ -191,6 +191,17 @@ int main() {
         pb(z);
         printf("\n");
         dump_polys("S", qid, M.Slice(z));
+      } else if (tok == "slicev") {
+        // slice exactly at the height of an exported vertex (non-generic height)
+        int k = (int)num();
+        MeshGL64 g = M.GetMeshGL64();
+        if (g.NumVert() > 0) {
+          double z = g.vertProperties[(size_t)(k % (int)g.NumVert()) * g.numProp + 2];
+          printf("SZ %s", qid.c_str());
+          pb(z);
+          printf("\n");
+          dump_polys("S", qid, M.Slice(z));
+        }
       } else if (tok == "proj") {
         dump_polys("P", qid, M.Project());
       } else if (tok == "decomp") {
